@@ -27,6 +27,9 @@ Proof.
   unfold p_pos in E. congruence.
 Qed.
 
+Lemma pv_get_pos g g' i : pv g' = pv g -> p_pos (get_p g' i) = p_pos (get_p g i).
+Proof. intros H. unfold get_p, pv in *. rewrite <- !(map_nth p_pos). now rewrite H. Qed.
+
 Lemma pv_upd g i f : (forall p, p_pos (f p) = p_pos p) -> pv (upd_p g i f) = pv g.
 Proof.
   intros Hf. unfold pv, upd_p. simpl. revert i. induction (g_players g) as [|x t IH]; intros [|i]; simpl; auto.
